@@ -11,7 +11,8 @@
 (***************************************************************************)
 EXTENDS SVecOracle, TLC
 
-CONSTANTS Alphabet, MaxLen
+CONSTANTS Alphabet, MaxLen,
+          Flt        \* TRUE: the codes are floating-point values (2 = -0.0, 3 = NaN): a partial order, == is not identity
 
 VARIABLE done
 
@@ -28,10 +29,25 @@ OrderLaws ==
 
 Setup(c, s) == << <<"ctor_def", c, "-", <<0>>>>, <<"set_vals", c, "-", s>> >>
 
+\* what is left of the laws for a partially ordered element type
+PartialLaws ==
+  /\ \A a, b \in Seqs : ~(LexLessF(TRUE, a, b) /\ LexLessF(TRUE, b, a))
+  /\ \A a, b \in Seqs : SeqEq(TRUE, a, b) = SeqEq(TRUE, b, a)
+  /\ \A a, b \in Seqs : (Cmp3(TRUE, a, b) = "lt") = (Cmp3(TRUE, b, a) = "gt")
+  /\ \A a, b \in Seqs : (Cmp3(TRUE, a, b) = "un") = (Cmp3(TRUE, b, a) = "un")
+  /\ \A a, b \in Seqs : SeqEq(TRUE, a, b) => Cmp3(TRUE, a, b) = "eq"
+  /\ \A a, b \in Seqs : Cmp3(TRUE, a, b) = "lt" => LexLessF(TRUE, a, b)
+  \* without NaNs the floating-point oracle is the integer oracle on the numbers
+  /\ \A a, b \in Seqs : (\A i \in 1..Len(a) : a[i] # 3) /\ (\A i \in 1..Len(b) : b[i] # 3) =>
+        LET na == [i \in 1..Len(a) |-> NumOf(TRUE, a[i])]
+            nb == [i \in 1..Len(b) |-> NumOf(TRUE, b[i])]
+        IN /\ CmpMaskF(TRUE, a, b, TRUE) = CmpMask(na, nb, TRUE)
+           /\ CmpMaskF(TRUE, a, b, FALSE) = CmpMask(na, nb, FALSE)
+
 Init == done = FALSE
 Next ==
   /\ ~done
-  /\ Assert(OrderLaws, "the comparison oracle is not a consistent total order")
+  /\ Assert(IF Flt THEN PartialLaws ELSE OrderLaws, "the comparison oracle is not a consistent (total / partial) order")
   /\ \A a, b \in Seqs : PrintT(<<"S", Setup("A", a) \o Setup("B", b), <<"cmp", "A", "B", <<>>>>, "ok">>)
   /\ \A a \in Seqs : PrintT(<<"S", Setup("A", a), <<"cmp", "A", "A", <<>>>>, "ok">>)
   /\ \A a \in Seqs, x \in Alphabet \cup {0} : PrintT(<<"S", Setup("A", a), <<"erase_val", "A", "-", <<x>>>>, "ok">>)
